@@ -200,11 +200,27 @@ def scan_uncovered(expanded, results):
 
 
 def scan_trusted(text):
-    """List every assumption construct in a generated unit (DESIGN §3.8)."""
+    """List every assumption construct in a generated unit (DESIGN §3.8): axioms by name, assumed contracts as a count."""
     out = []
     for m in re.finditer(r"assume_specification\s*\[\s*([^\]]+)\]", text):
         out.append("assume_specification " + m.group(1).strip())
-    for kw in ("admit()", "assume(", "external_body", "external_fn_specification", "#[verifier::external"):
+    n_assumed = 0
+    for m in re.finditer(r"#\[verifier::external_body\]\s*(?:pub\s+)?(proof\s+)?fn\s+(\w+)", text):
+        if m.group(1):
+            out.append("axiom (external_body proof fn) " + m.group(2))
+        else:
+            n_assumed += 1
+    if n_assumed:
+        out.append("assumed callee contracts (external_body exec fns; see assumed_callee_contracts): present")
+    for m in re.finditer(r"(?:proof\s+)?fn\s+(\w+)[^{;]*\{[^{}]*admit\(\)", text):
+        out.append("admitted lemma " + m.group(1))
+    listed = set(x.split()[-1] for x in out)
+    for m in re.finditer(r"proof\s+fn\s+(ax_\w+)\s*(?:<[^>]*>)?\s*\([^)]*\)\s*(?:requires[^;{]*)?ensures[^;{]*;", text):
+        if m.group(1) not in listed:
+            out.append("trait-level axiom %s (abstract proof fn of a re-declared trait: assumed for the generic parameter)" % m.group(1))
+    if "global size_of usize == 8" in text:
+        out.append("global size_of usize == 8 (64-bit target)")
+    for kw in ("assume(",):
         n = text.count(kw)
         if n:
             out.append("%s x%d" % (kw, n))
